@@ -132,6 +132,7 @@ class Target:
             I.cut_at = self.cut_at if self.start_at is None else None
             try:
                 env = self.setup(I)
+                I.list_init = {id(v): list(v.items) for v in (env.get("locals") or {}).values() if isinstance(v, SList)}
                 ctx.path_info = {"kinds": {k: v.kind for k, v in env.items() if isinstance(v, V)}}
                 if not ctx.is_sat():
                     raise Infeasible()
